@@ -3,6 +3,7 @@ package gedcom
 import (
 	"fmt"
 	"strings"
+	"sync"
 	"time"
 )
 
@@ -13,6 +14,12 @@ type IndividualNode struct {
 	families                      FamilyNodes
 	spouses                       []*IndividualNode
 	cachedUniqueIDs               *StringSet
+
+	// cachedAt is the nodeCache that was current when the values above were
+	// cached. The nodeCache is replaced whenever any node is added or removed
+	// (in any family or individual), which is also when they have to be worked
+	// out again.
+	cachedAt *sync.Map
 }
 
 // SpouseChildren connects a single spouse to a set of children. The children
@@ -28,7 +35,16 @@ type SpouseChildren map[*IndividualNode]ChildNodes
 func newIndividualNode(document *Document, pointer string, children ...Node) *IndividualNode {
 	return &IndividualNode{
 		newSimpleDocumentNode(document, TagIndividual, "", pointer, children...),
-		false, false, nil, nil, nil,
+		false, false, nil, nil, nil, nil,
+	}
+}
+
+// checkCache forgets the cached families, spouses and unique identifiers if
+// any nodes have been added or removed since they were cached.
+func (node *IndividualNode) checkCache() {
+	if node.cachedAt != nodeCache {
+		node.resetCache()
+		node.cachedAt = nodeCache
 	}
 }
 
@@ -82,6 +98,8 @@ func (node *IndividualNode) Spouses() (spouses IndividualNodes) {
 		return nil
 	}
 
+	node.checkCache()
+
 	if node.cachedSpouses {
 		return node.spouses
 	}
@@ -122,6 +140,8 @@ func (node *IndividualNode) Families() (families FamilyNodes) {
 	if node == nil {
 		return nil
 	}
+
+	node.checkCache()
 
 	if node.cachedFamilies {
 		return node.families
@@ -854,6 +874,8 @@ func (node *IndividualNode) UniqueIDs() (nodes []*UniqueIDNode) {
 // commonly unique identifiers such as the FamilySearch ID or UUID generated by
 // some applications.
 func (node *IndividualNode) UniqueIdentifiers() *StringSet {
+	node.checkCache()
+
 	if node.cachedUniqueIDs == nil {
 		node.cachedUniqueIDs = NewStringSet()
 
